@@ -198,6 +198,12 @@ func GenC10(verifSeed uint64, run int) *Scenario {
 			subMap(subMap(m, "apk"), "signature")["key_file"] = "@SRC@keys/m-" + rkk
 		})})
 	}
+	// a callback that returns binary OpenPGP packets instead of ASCII armor:
+	// stored as returned, whatever its bytes look like (several builds with
+	// different control data, so that the signature ends in many different bytes)
+	for k := 1; k <= 8; k++ {
+		plan.Cases = append(plan.Cases, Case{Format: "deb", Sign: "callback", Class: "clean", SignBinary: true, PadDesc: k})
+	}
 	// recovery: right after every build that is made to fail, a fault-free
 	// signed build of the same format (alternating between the configured key
 	// file and the callback) - what a failed build leaves behind in the process
@@ -209,6 +215,7 @@ func GenC10(verifSeed uint64, run int) *Scenario {
 			r := Case{Format: c.Format, Class: "clean"}
 			if i%2 == 0 {
 				r.Sign = "callback"
+				r.SignBinary = i%4 == 0
 			}
 			withRecovery = append(withRecovery, r)
 		}
@@ -352,7 +359,13 @@ func verifySigned(w *World, cfgText, format string, pkg []byte, calls [][]byte, 
 		if last.Name != "_gpg"+typ {
 			fail("debsign signature member is %q, want last member _gpg%s", last.Name, typ)
 		}
-		if _, err := openpgp.CheckArmoredDetachedSignature(keyring, bytes.NewReader(signed), bytes.NewReader(last.Data), verifyCfg()); err != nil {
+		// the member holds what the signer returned: ASCII armor (nfpm's own
+		// key-file path, gpg -a) or binary packets (gpg --detach-sign)
+		check := openpgp.CheckDetachedSignature
+		if bytes.HasPrefix(last.Data, []byte("-----BEGIN")) {
+			check = openpgp.CheckArmoredDetachedSignature
+		}
+		if _, err := check(keyring, bytes.NewReader(signed), bytes.NewReader(last.Data), verifyCfg()); err != nil {
 			fail("debsign signature does not verify over debian-binary+control+data as stored: %v", err)
 		} else {
 			verified++
